@@ -25,7 +25,7 @@ from vf.coqlit import cbool, clist, cN, cpair, cstr, cZ
 
 THEOREMS = [
     "C18_generated_code", "C18_generated_code_refines", "C18_generated_value_maps",
-    "C18_generated_reader_lists_all_tables",
+    "C18_generated_reader_lists_all_tables", "C18_generated_descriptor_equality",
     "C18_every_write_succeeds", "C18_tables_and_columns", "C18_rows_in_order", "C18_read_back_counts", "C18_batch_independent",
     "C18_other_connection_sees_commit_points", "C18_close_commits_all", "C18_value_fidelity", "C18_quoting_safe",
     "C18_refuted_case_type_names", "C18_refuted_case_field_names", "C18_refuted_reserved_name", "C18_hyp_satisfiable",
@@ -255,9 +255,21 @@ def gen_history(rnd, max_events=22):
                 rnd.shuffle(sub)
                 sub.append(new_field())
                 chain.append(sub)
-        for fl in chain:
-            if len(descs) < 4:
-                descs.append({"name": nm, "fields": [[ftypes[f], f] for f in fl]})
+        variants = [[[ftypes[f], f] for f in fl] for fl in chain]
+        if rnd.random() < 0.25:
+            # a second definition with the SAME identifier as one of the chain: two adjacent fields merged into one
+            base = rnd.choice(variants)
+            cand = [i for i in range(len(base) - 1) if base[i][0].isalnum()]
+            if cand:
+                i = rnd.choice(cand)
+                mf = merged_field(base[i], base[i + 1])
+                if is_valid_field_name(mf[1]) and mf[1].lower() not in [x.lower() for x in order]:
+                    order.append(mf[1])
+                    ftypes[mf[1]] = mf[0]
+                    variants.insert(rnd.randrange(len(variants) + 1), base[:i] + [mf] + base[i + 2:])
+        for fl in variants:
+            if len(descs) < 5:
+                descs.append({"name": nm, "fields": fl})
     n = rnd.randint(3, max_events)
     events = []
     # bias: descriptors tend to appear in creation order so that evolution happens mid-history
@@ -493,7 +505,10 @@ def ctext(b: bytes) -> str:
 
 
 def cname(s: str) -> str:
-    return ctext(s.encode("utf-8"))
+    try:
+        return ctext(s.encode("utf-8", "surrogateescape"))
+    except UnicodeEncodeError:
+        return ctext(s.encode("utf-8", "surrogatepass"))
 
 
 def classify_pval(v):
@@ -746,7 +761,34 @@ def _w(name, fields, **vals):
 
 
 def _ev(d, **vals):
-    return {"d": d, "v": {k: ({"t": "i", "v": str(v)} if isinstance(v, int) else {"t": "s", "v": v}) for k, v in vals.items()}}
+    def spec(v):
+        if isinstance(v, dict):
+            return v
+        if isinstance(v, bool):
+            return {"t": "o", "v": v}
+        if isinstance(v, int):
+            return {"t": "i", "v": str(v)}
+        if isinstance(v, float):
+            return {"t": "f", "bits": struct.unpack(">Q", struct.pack(">d", v))[0]}
+        if isinstance(v, bytes):
+            return {"t": "b", "hex": v.hex()}
+        return {"t": "s", "v": v}
+    return {"d": d, "v": {k: spec(v) for k, v in vals.items()}}
+
+
+def merged_field(f1, f2):
+    """(t1, n1), (t2, n2) -> the single field (t2, n1 + t1 + n2): a descriptor in which the two adjacent fields are replaced
+    by it has the same identifier (name + 32-bit hash over the concatenated field names and types) but another definition"""
+    return [f2[0], f1[1] + f1[0] + f2[1]]
+
+
+_TS = {"t": "d", "iso": "2021-05-06T07:08:09.123456+05:30"}
+_BASE = _w("evo/all", [["string", "s0"]])
+_FULL = _w("evo/all", [["string", "s0"], ["datetime", "ts"], ["varint", "n"], ["float", "f"], ["boolean", "bo"], ["bytes", "b"],
+                       ["uint32", "u"], ["filesize", "fs"], ["path", "p"], ["uint16", "h"]])
+_FULLV = dict(s0="x", ts=_TS, n=-5, f=2.5, bo=True, b=b"\x00\xffz", u=7, fs=4096, p="/tmp/x", h=9)
+_CA = _w("net/conn", [["string", "src"], ["string", "dst"]])
+_CB = _w("net/conn", [["string", "srcstringdst"]])
 
 
 # histories that must HOLD on every run (each is also a correspondence case); they pin down classes of input that a
@@ -761,6 +803,17 @@ REGRESSION = [
     ("three sessions, second type appears in the second, first type evolves in the third",
      {"descs": [_w("s/a", [["string", "p"]]), _w("s/b", [["varint", "q"]]), _w("s/a", [["varint", "r"], ["string", "p"]])],
       "events": [_ev(0, p="1"), REOPEN, _ev(1, q=2), _ev(0, p="3"), FLUSH, REOPEN, REOPEN, _ev(2, r=4, p="5"), _ev(1, q=6)]}),
+    ("a later descriptor ADDS a field of every mapped type (one session)",
+     {"descs": [_BASE, _FULL], "events": [_ev(0, s0="a"), _ev(1, **_FULLV), _ev(0, s0="b"), _ev(1, **dict(_FULLV, bo=False, n=0, fs=0, u=0, h=0))]}),
+    ("a later descriptor ADDS a field of every mapped type (second session)",
+     {"descs": [_BASE, _FULL], "events": [_ev(0, s0="a"), REOPEN, _ev(1, **_FULLV), _ev(0, s0="b")]}),
+    ("two definitions with the same identifier in one session",
+     {"descs": [_CA, _CB], "events": [_ev(0, src="a", dst="b"), _ev(1, srcstringdst="c"), _ev(0, src="d", dst="e")]}),
+    ("two definitions with the same identifier in one session, other order",
+     {"descs": [_CA, _CB], "events": [_ev(1, srcstringdst="c"), _ev(0, src="a", dst="b"), _ev(1, srcstringdst="f")]}),
+    ("two definitions with the same identifier across sessions, both orders",
+     {"descs": [_CA, _CB], "events": [_ev(0, src="a", dst="b"), REOPEN, _ev(1, srcstringdst="c"), REOPEN, _ev(1, srcstringdst="g"),
+                                      _ev(0, src="d", dst="e")]}),
     ("type names that begin with sqlite",
      {"descs": [_w("sqlite/table_row", [["string", "a"]]), _w("sqlite3/row", [["varint", "n"]]), _w("SQLiteDump", [["string", "a"]]),
                 _w("sqlite", [["string", "a"]])],
@@ -886,8 +939,8 @@ def search(ctx, reason):
 def run(ctx):
     kf = core.known_for("C18")
     ctx.coverage["rule"] = (
-        "a case = one generated history (1-4 descriptors over 1-3 type names incl. same-name descriptors that gain / reorder "
-        "fields, valid mixed-case case-distinct names incl. SQL keywords and names that resemble SQLite-internal names / LIKE patterns, 3-22 events incl. explicit flushes and reopen events (several writer sessions on one file), values: text with "
+        "a case = one generated history (1-5 descriptors over 1-3 type names incl. same-name descriptors that gain / reorder "
+        "fields of every type and pairs of different definitions with the SAME identifier (name + 32-bit hash), valid mixed-case case-distinct names incl. SQL keywords and names that resemble SQLite-internal names / LIKE patterns, 3-22 events incl. explicit flushes and reopen events (several writer sessions on one file), values: text with "
         "quotes/unicode/NUL, ints at the 64-bit boundaries, finite floats by bit pattern, bytes, timestamps with offsets, None, "
         "other types as text) run with ONE batch size of {1,2,3,7,1000}; observed through a second sqlite3 connection after every "
         "event and after close and read back with SqliteReader; distinct = distinct (history, batch size); non-trivial = the "
